@@ -8,6 +8,7 @@
 import TypedpyModel.Drive.Wire
 import TypedpyModel.Drive.Mutate
 import TypedpyModel.Sem.EqHash
+import TypedpyModel.Lemmas.HashLemmas
 import TypedpyModel.Spec.Conforms
 import TypedpyModel.Generated.Wrappers
 namespace Typedpy.Drive.Pairs
@@ -98,6 +99,9 @@ def run (j : Json) : Except String Json := do
       Json.bool (a.cls == b.cls && fieldwise defaults names a b)).toArray
     let keys := insts.map fun a => Json.str (hashKey R a)
     let wf := insts.map fun a => Json.bool (wellFormed O cls (.inst a.cls a.attrs))
+    -- hypotheses of the theorems, evaluated on what the real code produced
+    let ok := insts.map fun a => Json.bool (okAttrs a.attrs && okAttrs defaults && keysDistinct (a.attrs.map (·.1)))
+    let same := insts.map fun a => Json.arr (insts.map fun b => Json.bool (sameSpellI a b)).toArray
     let ops ← match optField j "ops" with
       | none => pure []
       | some x => (← x.getArr?).toList.mapM Mutate.opOfJson
@@ -116,7 +120,8 @@ def run (j : Json) : Except String Json := do
          ("runPickle", Json.arr (stepsJson c fields O p ops).toArray)]
     pure (Json.mkObj ([("start", Json.arr starts.toArray), ("eq", Json.arr eq.toArray),
                        ("fieldwise", Json.arr fw.toArray), ("keys", Json.arr keys.toArray),
-                       ("wf", Json.arr wf.toArray)] ++ copies))
+                       ("wf", Json.arr wf.toArray), ("ok", Json.arr ok.toArray),
+                       ("same", Json.arr same.toArray)] ++ copies))
   | _ => throw "pairs: cls must be a struct"
 
 end Typedpy.Drive.Pairs
